@@ -192,7 +192,16 @@ func (c *Ctx) wrapInfoOf(f *ssa.Function) (wrapInfo, bool) {
 			}
 		}
 		if g := c.Func("wrapErrorWithRetry"); g != nil {
-			m[g] = &wrapInfo{0, 1}
+			// the handle is the parameter of the retry-handle type, wherever it stands
+			h := 1
+			for i, p := range g.Params {
+				if typeName(p.Type()) == "retryFn" {
+					h = i
+				} else if sig, ok := p.Type().Underlying().(*types.Signature); ok && sig.Params().Len() == 2 && sig.Results().Len() == 1 {
+					h = i
+				}
+			}
+			m[g] = &wrapInfo{0, h}
 		}
 	}
 	if wi, ok := m[f]; ok {
